@@ -257,9 +257,19 @@ class ConstEval:
                 return getattr(struct, r[2])(*[ev(a) for a in e.args])
             if r and r[0] == 'extern' and r[1] == 'collections' and r[2] == 'OrderedDict' and len(e.args) <= 1:
                 return dict(*[ev(a) for a in e.args])
+            if r and r[0] == 'func' and not e.args and not e.keywords and not r[1].params:
+                # a module-level helper without parameters whose body is `return <input-free expression>` (e.g. a blank header)
+                body = [st for st in r[1].node.body if not (isinstance(st, ast.Expr) and isinstance(st.value, ast.Constant))]
+                if len(body) == 1 and isinstance(body[0], ast.Return) and body[0].value is not None and not r[1].node.decorator_list:
+                    return self.ev(body[0].value, r[1].mod, None, {})
             raise NotConst('call of %s' % fn.id)
         if isinstance(fn, ast.Attribute):
             q = ast.unparse(fn)
+            if q == 'dict.fromkeys' and 1 <= len(e.args) <= 2 and 'dict' not in env and self.idx.lookup(mod, 'dict') is None:
+                args = [ev(a) for a in e.args]
+                if len(args) == 2 and not (args[1] is None or isinstance(args[1], (int, str, bytes, float, bool, tuple))):
+                    raise NotConst('fromkeys over a mutable value')
+                return dict.fromkeys(*args)
             if q in _PURE_QUAL:
                 r = self.idx.lookup(mod, q.split('.')[0])
                 if r and r[0] == 'module' and r[1] == 'struct':
